@@ -979,6 +979,8 @@ static int sexp_check_type(sexp ctx, sexp a, sexp b) {
 
 #if SEXP_USE_GREEN_THREADS
 #define sexp_fcall_return(x, i)                             \
+  /* the foreign function may have run the VM and grown the stack */ \
+  stack = sexp_stack_data(sexp_context_stack(ctx));         \
   if (sexp_exceptionp(x)) {                                 \
     if (x == sexp_global(ctx, SEXP_G_IO_BLOCK_ERROR)) {     \
       fuel = 0; ip--; goto loop;                            \
@@ -998,6 +1000,7 @@ static int sexp_check_type(sexp ctx, sexp a, sexp b) {
   }
 #else
 #define sexp_fcall_return(x, i)                                 \
+  stack = sexp_stack_data(sexp_context_stack(ctx));                   \
   top -= i; _ARG1 = x; ip += sizeof(sexp); sexp_check_exception();
 #endif
 
